@@ -204,6 +204,13 @@ pub struct QSpec {
     /// if Some: `ys` is given this (different) shape -> documented panic
     pub ys_shape: Option<Vec<usize>>,
     pub lay: Lay,
+    /// memory layout of `ys`, independent of the layout of `xs`
+    #[serde(default = "lay_c")]
+    pub ys_lay: Lay,
+}
+
+fn lay_c() -> Lay {
+    Lay::C
 }
 
 #[derive(Serialize, Deserialize, Clone, Debug, PartialEq)]
